@@ -39,7 +39,7 @@ META = {
                     "the last axis of 2-d arrays is the indexed one"],
     "technique": "index-space type inference with contradiction detection (abstract interpretation over AST)",
 }
-MIN_INSTANCES = {"R1": 8, "R2": 2, "R3": 5, "R4": 3}
+MIN_INSTANCES = {"R1": 12, "R2": 2, "R3": 9, "R4": 3}
 
 PRESERVING_METHODS = {"ravel", "flatten", "copy", "astype", "squeeze", "reshape"}
 PRESERVING_FUNCS = {"atleast_2d", "atleast_1d", "asarray", "ascontiguousarray", "ravel", "squeeze"}
@@ -708,6 +708,15 @@ def _analyse_add(ctx: Ctx, mod, fn: ast.FunctionDef) -> None:
             if not ok_types:
                 _undecided(ctx, f"{q}: cannot type the update `{u(s)}` (target {fmt(tsel)}, value {fmt(tval)})")
                 continue
+            pol = _additive_polarity(pm, s, fn, "additive")
+            if pol is None:
+                _undecided(ctx, f"{q}: update of stored entries `{u(s)}` outside the additive/overwrite arms")
+            else:
+                ctx.check("R3", aug == pol and (not aug or isinstance(s.op, ast.Add)), mod, q, s,
+                          f"stored entries must be {'incremented (+=)' if pol else 'overwritten (=)'} in the "
+                          f"{'additive' if pol else 'overwrite'} arm; found `{'+=' if aug and isinstance(s.op, ast.Add) else ('=' if not aug else 'other op')}`",
+                          construct=f"existing entries {'additive' if pol else 'overwrite'} arm uses "
+                                    f"{'augmented' if aug else 'plain'} assignment")
             aligned = _aligned(tsel[1], tval[1])
             if aligned is None:
                 _undecided(ctx, f"{q}: unknown pairing in `{u(s)}`: {fmt(tsel)} with {fmt(tval)}")
@@ -942,7 +951,7 @@ MUTANTS = [
        "R1", control=True),
     _m("bincount-wrong-map", "np.bincount(all_2_unique, weights=values[i])", "np.bincount(unique_2_all, weights=values[i])", "R1"),
     _m("where-on-wrong-map", "values[:, np.where(all_2_unique == i)[0][-1]]", "values[:, np.where(unique_2_all == i)[0][-1]]", "R1"),
-    _m("first-duplicate-wins", "np.where(all_2_unique == i)[0][-1]", "np.where(all_2_unique == i)[0][0]", "R3", control=True),
+    _m("first-duplicate-wins", "np.where(all_2_unique == i)[0][-1]", "np.where(all_2_unique == i)[0][0]", "R3"),
     _m("nodup-guard-removed", "            if np.all(counts == 1):", "            if True:", "R3"),
     _m("append-members-values", "            (self._values, unique_values[:, np.logical_not(is_mem)])",
        "            (self._values, unique_values[:, is_mem])", "R3"),
@@ -961,8 +970,11 @@ MUTANTS = [
     ]),
     _m("storage-index-unfiltered-sorted", "ind = np.array([i[0] for i in ind_list if len(i) > 0], dtype=int)",
        "ind = np.sort(np.array([i[0] for i in ind_list if len(i) > 0], dtype=int))", "R2"),
+    _m("additive-arm-overwrites-existing", "            self._values[:, ind] += unique_values[:, is_mem]", "            self._values[:, ind] = unique_values[:, is_mem]", "R3"),
+    _m("overwrite-arm-adds-to-existing", "            self._values[:, ind] = unique_values[:, is_mem]", "            self._values[:, ind] += unique_values[:, is_mem]", "R3"),
+    _m("duplicate-loop-over-batch", "for i in range(unique_coords.shape[1]):", "for i in range(coord_array.shape[1]):", "R1"),
     _m("get-sorted-positions", "_, _, is_mem, ind_list = intersect_sets(coord_array, self._coords)",
-       "_, ind_list, is_mem, _ = intersect_sets(coord_array, self._coords)", "R4", control=True),
+       "_, ind_list, is_mem, _ = intersect_sets(coord_array, self._coords)", "R4"),
     _m("get-guard-all-nonmembers", "if np.any(np.logical_not(is_mem)):", "if np.all(np.logical_not(is_mem)):", "R4"),
     _m("get-guard-removed", "        if np.any(np.logical_not(is_mem)):\n            raise ValueError(\"Inquiry on unassigned coordinate.\")\n",
        "", "R4"),
